@@ -48,7 +48,12 @@ Qed.
    the parts of the world a later rollback relies on and that no swap / restore /
    phase change touches *)
 Definition frame (w : world) :=
+  (option_map j_from (jr w), option_map j_to (jr w), snaps w, g_base w, g_fs0 w, g_clean w).
+
+Definition frame4 (w : world) :=
   (option_map j_from (jr w), option_map j_to (jr w), snaps w, g_base w).
+Lemma frame_frame4 w w' : frame w' = frame w -> frame4 w' = frame4 w.
+Proof. unfold frame, frame4. intros H. injection H as -> -> -> -> _ _. reflexivity. Qed.
 
 Lemma frame_set_phase w ph : frame (set_phase w ph) = frame w.
 Proof. unfold set_phase, frame. destruct (jr w) eqn:E; simpl; rewrite ?E; reflexivity. Qed.
@@ -281,17 +286,21 @@ Definition Inv (v : variant) (w : world) : Prop :=
   | _ => True
   end.
 
-Lemma snap_ok_frame v w w' base vi : frame w' = frame w -> snap_ok v w base vi -> snap_ok v w' base vi.
+Lemma snap_ok_frame4 v w w' base vi : frame4 w' = frame4 w -> snap_ok v w base vi -> snap_ok v w' base vi.
 Proof.
-  unfold frame, snap_ok. intros Hf (d & nv & es & H1 & H2 & H3). injection Hf as Ha Hb Hc Hd.
+  unfold frame4, snap_ok. intros Hf (d & nv & es & H1 & H2 & H3). injection Hf as Ha Hb Hc Hd.
   exists d, nv, es. rewrite Ha, Hc. auto.
 Qed.
+Lemma snap_ok_frame v w w' base vi : frame w' = frame w -> snap_ok v w base vi -> snap_ok v w' base vi.
+Proof. intros H. apply snap_ok_frame4. now apply frame_frame4. Qed.
 
-Lemma Inv_frame v w w' : frame w' = frame w -> Inv v w -> Inv v w'.
+Lemma Inv_frame4 v w w' : frame4 w' = frame4 w -> Inv v w -> Inv v w'.
 Proof.
-  unfold Inv. intros Hf. assert (g_base w' = g_base w) by (unfold frame in Hf; now injection Hf).
-  rewrite H. destruct (g_base w) as [[[[] base] vi]|]; auto. intros [fr Hs]. exists fr. now apply (snap_ok_frame v w w').
+  unfold Inv. intros Hf. assert (g_base w' = g_base w) by (unfold frame4 in Hf; now injection Hf).
+  rewrite H. destruct (g_base w) as [[[[] base] vi]|]; auto. intros [fr Hs]. exists fr. now apply (snap_ok_frame4 v w w').
 Qed.
+Lemma Inv_frame v w w' : frame w' = frame w -> Inv v w -> Inv v w'.
+Proof. intros H. apply Inv_frame4. now apply frame_frame4. Qed.
 
 (* ------------------------------------------------------------------ rollback *)
 Lemma rollback_frame v F w w' r :
@@ -466,7 +475,7 @@ Lemma apply_flow_spec v T F w w' r :
 Proof.
   unfold apply_flow. intros H Hnd.
   set (base := base_of w (t_arts T)) in *.
-  set (w0 := set_gbase _ _) in H.
+  set (w0 := set_gfs0 _ _ _) in H.
   assert (Htriv : forall wx rr, g_base wx = Some (false, base, cur w) -> rr = RCrash \/ (rr = RErr /\ fs wx = fs w /\ cur wx = cur w) ->
                                 apply_post v T w wx rr).
   { intros wx rr Hg Hr. unfold apply_post, Inv. rewrite Hg. splits; auto.
@@ -602,7 +611,7 @@ Proof.
     destruct (rollback_step_spec _ _ _ _ _ Er Hi Hv) as (R1 & R2 & R3).
     destruct rr; inv H; split; auto; try discriminate. now apply R3.
   - inv H. split; [|discriminate]. eapply Inv_frame; [|exact Hi]. reflexivity.
-  - inv H. split; [|discriminate]. eapply Inv_frame; [|exact Hi]. reflexivity.
+  - inv H. split; [|discriminate]. eapply Inv_frame4; [|exact Hi]. reflexivity.
 Qed.
 
 Lemma run_never_mixed v : v_mode_fix v = true -> forall ops w, Inv v w ->
@@ -800,11 +809,13 @@ Definition J (w : world) : Prop :=
   | Some (b, _, vi) => option_map j_from (jr w) = Some vi /\ (b = false -> cur w = vi)
   end.
 
-Lemma J_core w w' : frame w' = frame w -> cur w' = cur w -> g_inst w' = g_inst w -> J w -> J w'.
+Lemma J_core4 w w' : frame4 w' = frame4 w -> cur w' = cur w -> g_inst w' = g_inst w -> J w -> J w'.
 Proof.
-  unfold J, frame. intros Hf Hc Hg (J1 & J2 & J3). injection Hf as Ha Hb Hs Hgb.
+  unfold J, frame4. intros Hf Hc Hg (J1 & J2 & J3). injection Hf as Ha Hb Hs Hgb.
   rewrite Hc, Hg, Hs, Hgb, Ha. auto.
 Qed.
+Lemma J_core w w' : frame w' = frame w -> cur w' = cur w -> g_inst w' = g_inst w -> J w -> J w'.
+Proof. intros H. apply J_core4. now apply frame_frame4. Qed.
 
 Lemma J_set_phase w ph : J w -> J (set_phase w ph).
 Proof. apply J_core; [apply frame_set_phase|apply cur_set_phase|apply ginst_set_phase]. Qed.
@@ -936,7 +947,7 @@ Lemma apply_flow_J v T F w w' r :
 Proof.
   intros Hv (J1 & J2 & J3) H. unfold apply_flow in H.
   set (base := base_of w (t_arts T)) in *.
-  set (w0 := set_gbase _ _) in H.
+  set (w0 := set_gfs0 _ _ _) in H.
   assert (J0 : J w0).
   { unfold J, w0. simpl. split; [assumption|]. split; [assumption|]. split; reflexivity. }
   destruct (crash_at F 25); [inv H; split; [assumption|discriminate]|].
@@ -982,7 +993,7 @@ Proof.
   - destruct (rollback_flow v F w) as [w1 rr] eqn:E.
     destruct (rollback_J _ _ _ _ _ Hv Hj E) as [J1 _]. destruct rr; exact J1.
   - apply (J_core w); auto.
-  - apply (J_core w); auto.
+  - apply (J_core4 w); auto.
 Qed.
 
 Lemma J_init c f : J (init_world c f).
